@@ -7,6 +7,7 @@ import (
 	"fmt"
 	"strconv"
 	"strings"
+	"unicode/utf8"
 
 	"github.com/grindlemire/go-lucene/pkg/lucene/expr"
 )
@@ -66,13 +67,13 @@ func Open() Value { return Value{Kind: VOpen, S: "*", Text: "*"} }
 // that is not a letter, digit or underscore.
 func Escaped(s string) Value {
 	var b strings.Builder
-	for _, r := range s {
-		if r == '_' || isLetterDigit(r) {
-			b.WriteRune(r)
-		} else {
+	for i := 0; i < len(s); {
+		r, size := utf8.DecodeRuneInString(s[i:])
+		if !(r == '_' || isLetterDigit(r)) {
 			b.WriteByte('\\')
-			b.WriteRune(r)
 		}
+		b.WriteString(s[i : i+size]) // raw bytes: invalid UTF-8 stays what it was
+		i += size
 	}
 	return Value{Kind: VEscaped, S: s, Text: b.String()}
 }
